@@ -15,7 +15,8 @@ CHECKS = {
              "load_network_info(load_devices=True) run for every version 4..14 x NCP capability against the simulated NCP store with "
              "generated settings (12 quick / 300 thorough per version); TLC judges each run (Trace_NetInfo)."
              " Children may carry reserved network addresses; after the round trip the child in the lowest slot leaves and the settings are read again (ReadMatchesStore)."
-             " The NCP may start off-network but still holding link keys of an earlier network.",
+             " The NCP may start off-network but still holding link keys of an earlier network."
+             " Link-key entries may carry the trust-centre link key itself.",
         design_ref="3/C14",
         note="Trusted: compat shim, simulated NCP store (ncp_netinfo.py) answering ~30 commands in every version's result shapes. From "
              "version 5 on only the well-known link key round-trips (stated limitation of bellows). One defect found and fixed (v14 "
@@ -36,7 +37,8 @@ CHECKS = {
              "invoked from the other are part of every scenario family."
              " Owner-loop states: running, open but not started yet (the calls are queued and run once it starts), closed; owner either a plain thread or bellows' EventLoopThread (start / force_stop with calls in flight)."
              " What the owner's loop reports for a queued plain call is part of the model (a call handing back any value - also 0 / False / empty - is reported as a TypeError); kinds include plain methods returning falsy values and a plain function wrapping a coroutine function."
-             " Kinds include instance attributes shadowing class methods of the other kind.",
+             " Kinds include instance attributes shadowing class methods of the other kind."
+             " Coroutine calls whose result is never awaited are executed all the same (coroForget).",
         design_ref="3/C20",
         note="Real OS threads: schedules are sampled, not enumerated; the verdict depends only on per-thread order, never on wall-clock "
              "order across threads (generous wall-clock limits only detect blocking). A stopped-but-not-closed loop is outside the property.",
@@ -56,7 +58,8 @@ CHECKS = {
              "exact timeout instant, scan results and that listener / callback bookkeeping is back to its prior size after every operation."
              " Every refusal status of the command's status family is used in turn for scan / form / leave, followed by another operation's events."
              " spec/StatusWaiters.tla models the listener registry under several waiters at once (also waiters that stay inside their block after their event): model-checked (NoMiss, NoSpurious) and bound to 2..3 concurrent wait_for_stack_status blocks of the real EZSP in every order of events, cancellations and timeouts."
-             " spec/CbRegistry.tla: the callback registry under every short order of registrations, removals and frames (an id handed out is never the id of a registration in force; fan-out to exactly the registrations in force).",
+             " spec/CbRegistry.tla: the callback registry under every short order of registrations, removals and frames (an id handed out is never the id of a registration in force; fan-out to exactly the registrations in force)."
+             " NOT_JOINED is one of the refusals of form / leave.",
         design_ref="3/C17",
         note="Trusted: compat shim (bring-up), fake gateway + NcpEzsp encoder, virtual time. Residue is read from EZSP._stack_status_listeners "
              "and EZSP._callbacks (the bookkeeping the property names). A scan has no timeout of its own in the code and none is claimed.",
@@ -92,7 +95,8 @@ CHECKS = {
              "source route, extended timeout, IEEE-addressed) x 6 enqueue-status sequences x 10 confirmation patterns, concurrent and "
              "staggered mixes with multicast / broadcast and unsolicited confirmations, random mixes; TLC validates each run."
              " NCP versions 15 and 16 (newest known tables) are included."
-             " With an NCP that takes 10 ms over every set-up command the caller is cancelled between two set-up commands while other requests wait for the lock: a block ends with its request, and set-up commands are only accepted on behalf of a request in progress.",
+             " With an NCP that takes 10 ms over every set-up command the caller is cancelled between two set-up commands while other requests wait for the lock: a block ends with its request, and set-up commands are only accepted on behalf of a request in progress."
+             " Version-14 confirmations also carry 16-bit tags that differ from the pending one only above the low byte.",
         design_ref="3/C12",
         note="Trusted: zigpy.util.Requests shim (compat.py), simulated EZSP NCP (enqueue answers; messageSentHandler in the version's "
              "field order), virtual time. RETRY_DELAYS and APS_ACK_TIMEOUT read from the tree (configuration).",
@@ -115,7 +119,8 @@ CHECKS = {
              "on failure, and (liveness, fair timers and line) every issued call returns or raises; runs of the real full stack with every "
              "failure kind after each of the first wire steps (registered or not) and random fault / failure schedules on versions 4..14 "
              "must be behaviours of the composed model (Trace_Stack, SilentAfterRequest / StoppedAfterRequest on every state)."
-             " Workloads include a list command (scan) in progress, a command after a completed scan, and an NCP silent from the start; failure kinds include a deliberate close on a transport that reports the closed connection late.",
+             " Workloads include a list command (scan) in progress, a command after a completed scan, and an NCP silent from the start; failure kinds include a deliberate close on a transport that reports the closed connection late."
+             " In the silent workload the caller of the command in flight may give up before the link does: the link's verdict must still reach the application.",
         design_ref="3/C10",
         note="Trusted: full-stack rig (fake serial transport that stops delivering reads once closed, simulated ASH + EZSP NCP), virtual "
              "time. A silent NCP is noticed only when something is sent (the harness issues the keep-alive a watchdog would); an "
@@ -209,7 +214,8 @@ CHECKS = {
              "on a fake serial line, versions 4..14, per-frame faults in both directions, back-to-back reads, timers, callbacks, "
              "cancellations, silent NCP, re-negotiation) must be behaviours of the composed model (Trace_Stack; a binding self-test "
              "corrupts recorded fields and requires rejection)."
-             " Sequence-number reuse: a call times out, 255 further commands complete, the next call goes out under the same number and its reply arrives late but within its own timeout (12 timings). A loop timer that fires with nothing observable and no model timeout due is stuttering.",
+             " Sequence-number reuse: a call times out, 255 further commands complete, the next call goes out under the same number and its reply arrives late but within its own timeout (12 timings). A loop timer that fires with nothing observable and no model timeout due is stuttering."
+             " Composite methods of the version's handler reached through the EZSP object are used before and after the handler is replaced by EZSP.reset().",
         design_ref="3/C06",
         note="Trusted: fake gateway, virtual-time loop, zigpy's priority semaphore is part of the implementation under test. Per handler "
              "lifetime (a version switch or reset replaces the handler; that is C09). Latitude: a reply hitting a stale registration may be "
@@ -252,7 +258,8 @@ CHECKS = {
              "ControllerApplication._watchdog_feed (real EZSP, simulated NCP, virtual time) and validated by TLC against Trace_Watchdog "
              "(raise/return, exception class, keep-alive command seen by the NCP, connection_lost iff raised)."
              " Restart-length failure runs are started 7..0 feeds before the first and the second periodic read-and-clear feed."
-             " Counter reads may carry fewer or more values than the host has counter types (1 / 40 / 43 / 60).",
+             " Counter reads may carry fewer or more values than the host has counter types (1 / 40 / 43 / 60)."
+             " Frames the NCP sends on its own between feeds are no keep-alive outcome (callback step).",
         design_ref="3/C19",
         note="Trusted: zigpy.util.Requests shim (compat.py), simulated EZSP NCP, virtual-time loop. MAX_WATCHDOG_FAILURES and the clear period "
              "are read from the tree as configuration.",
@@ -341,7 +348,8 @@ CHECKS = {
              "endpoints: 2, 255, mixed) is validated by TLC against Trace_Multicast with the observed "
              "status, table write, NCP table and behaviourally probed host view bound at each step."
              " Initial tables also carry free entries with left-over group ids (what unsubscribe leaves behind), including the id of a group that is live at another index, and histories contain restarts (a second start-up scan over the table the host itself produced)."
-             " NcpChange: the NCP's table changes behind the host's back and start-up runs again on the same object (every pair of tables). Overlapping calls: spec/MulticastConc.tla (Begin / End per call) is model-checked for calls on different groups and bound to the real object with table writes answered when the schedule says so; overlapping calls for the same group are a recorded deviation (TLC counter-example required).",
+             " NcpChange: the NCP's table changes behind the host's back and start-up runs again on the same object (every pair of tables). Overlapping calls: spec/MulticastConc.tla (Begin / End per call) is model-checked for calls on different groups and bound to the real object with table writes answered when the schedule says so; overlapping calls for the same group are a recorded deviation (TLC counter-example required)."
+             " The real startup(coordinator) runs with group memberships on several endpoints (also the same group on two endpoints); no group may end up in two entries (Unique).",
         design_ref="3/C15",
         note="Trusted: command-level simulated NCP (does not apply rejected/timed-out writes), deep-copy "
              "behavioural probes of the host view, TLC.",
